@@ -347,6 +347,36 @@ def run_shard(ctx):
                 ps["survey"] = (h, rows)
                 ctx.ctr("pipe_text_cases")
                 compare_all(ctx, form, ps, sig, "pipes-in-cell", ["csv", "xlsx"], rng, all_channels=True)
+        # (2e') what was converted before must not matter when the type is not given: a conversion of the other text container (which a reader may
+        # remember) comes first, then this form - full of commas for markdown, of pipes for CSV - by every channel that leaves the type open
+        if i % 5 == 1 and md_representable(sheets):
+            cs = {k: (list(h_), [list(r_) for r_ in rows_]) for k, (h_, rows_) in sheets.items()}
+            h, rows = cs["survey"]
+            if "calculation" not in h:
+                h.append("calculation")
+                for r_ in rows:
+                    r_.append(None)
+            nr = [None] * len(h)
+            nr[h.index("type")], nr[h.index("name")], nr[h.index("calculation")] = "calculate", f"commas{i}", "if(1 = 1, concat('a, b', ',', 'c,d'), 'e, f, g')"
+            rows.append(nr)
+            ref = drive.convert_sheets(cs, fmt="dict", args=dict(form.args))
+            other = {"survey": (["type", "name", "label"], [["text", "prev", "a|b|c, d, e, f, g"]])}
+            for fmt, first in (("md", "csv"), ("csv", "md")):
+                for ch in ("bytes_implicit", "bytesio_implicit"):
+                    drive.convert_sheets(other, fmt=first, channel="bytes_implicit")  # the conversion before
+                    if ch == "bytes_implicit":
+                        o = drive.convert_sheets(cs, fmt=fmt, channel="bytes_implicit", args=dict(form.args))
+                    else:
+                        import io as _io
+                        raw = render.render(cs, fmt)
+                        o = drive.call_convert(_io.BytesIO(raw.encode("utf-8")), **dict(form.args))
+                    ctx.ctr("renderings_compared")
+                    ctx.ctr("reader_history_cases")
+                    ctx.case(sig=f"{sig}|{fmt}|after-{first}|{ch}")
+                    d = outcome_diff(ref, o)
+                    if d:
+                        ctx.viol(f"differs:{fmt}:{ch}:after-a-{first}-conversion:{d[0]}", f"{fmt} given without a type right after a {first} conversion in the same process: {d[1]}",
+                                 common.witness(form, fmt=fmt, variant=f"after-{first}", channel=ch))
         # (2f) a header cell that the spreadsheet stores as a number or a boolean (a year, a code): a column like any other unknown column
         if i % 4 == 3:
             hs = copy.deepcopy(sheets)
